@@ -5,8 +5,8 @@
 // and one ndjson event {"e":"Conv","dir":...} per case is written.  Expected values are NOT computed here.
 //
 // usage: xv_c18 cases.ndjson [noxpath] > trace.ndjson
-// Cases run in a forked child; when the child dies (signal, sanitizer abort, time-out) the parent
-// attributes the death to the case that was running ("crash" field) and forks a new child for the rest.
+// Every case runs in its own forked child; when the child dies (signal, sanitizer abort, time-out) the
+// parent writes the event of that case with a "crash" field instead.
 #include "common.hpp"
 #include <cmath>
 #include <cerrno>
@@ -213,27 +213,23 @@ int main(int argc, char** argv) {
     for (auto& line : readLines(argv[1])) cases.push_back(parseJson(line));
     Platform platform;
     XPathEvaluator::initialize();
-    size_t start = 0;
     int rc = 0;
-    // A child runs the cases from `start` and sends one line per finished case through a pipe.  The parent accepts
-    // the well-formed lines in order; when the child does not finish normally, the first case without an accepted
-    // line is the one it died in (a child with a smashed stack may write anything before it dies, so whatever
-    // follows the last accepted line is discarded).
-    while (start < cases.size()) {
+    // Every case runs in its own forked child (the parent has initialised the library and the evaluation
+    // environment once; a child inherits them).  A conversion that overruns a stack buffer may or may not die, and
+    // may corrupt whatever runs after it, so nothing that runs after a case shares its process: the child sends its
+    // one event line through a pipe; a child that does not exit normally with exactly one well-formed line is a
+    // "crash" of that case.
+    Env env(xpath);
+    std::string outbuf;
+    for (size_t k = 0; k < cases.size(); ++k) {
         int fds[2];
         if (pipe(fds) != 0) { perror("pipe"); return 2; }
         const pid_t pid = fork();
         if (pid < 0) { perror("fork"); return 2; }
         if (pid == 0) {
             close(fds[0]);
-            {
-                Env env(xpath);
-                for (size_t i = start; i < cases.size(); ++i) {
-                    alarm(20);
-                    writeAll(fds[1], runCase(cases[i], env));
-                }
-                alarm(0);
-            }
+            alarm(20);
+            writeAll(fds[1], runCase(cases[k], env));
             _exit(0);
         }
         close(fds[1]);
@@ -247,28 +243,23 @@ int main(int argc, char** argv) {
         int st = 0;
         if (waitpid(pid, &st, 0) < 0) { perror("waitpid"); return 2; }
         if (WIFEXITED(st) && (WEXITSTATUS(st) == 2 || WEXITSTATUS(st) == 3)) { rc = 2; break; }   // harness usage error
-        size_t accepted = 0, pos = 0;
-        std::string good;
-        while (start + accepted < cases.size()) {
-            const size_t nl = data.find('\n', pos);
-            if (nl == std::string::npos) break;
-            const std::string line = data.substr(pos, nl - pos);
-            const std::string want = "{\"e\":\"Conv\",\"dir\":" + jstr(cases[start + accepted].str("dir"));
-            if (!wellFormedLine(line) || line.compare(0, want.size(), want) != 0) break;
-            good += line; good += '\n';
-            pos = nl + 1; ++accepted;
+        const bool normal = WIFEXITED(st) && WEXITSTATUS(st) == 0;
+        const std::string want = "{\"e\":\"Conv\",\"dir\":" + jstr(cases[k].str("dir"));
+        const bool oneLine = !data.empty() && data.back() == '\n' && data.find('\n') == data.size() - 1;
+        if (normal && oneLine && wellFormedLine(data.substr(0, data.size() - 1)) && data.compare(0, want.size(), want) == 0) {
+            outbuf += data;
+        } else {
+            std::string how;
+            if (WIFSIGNALED(st)) {
+                const int sg = WTERMSIG(st);
+                how = sg == SIGSEGV ? "SIGSEGV" : sg == SIGABRT ? "SIGABRT" : sg == SIGALRM ? "TIMEOUT" : sg == SIGBUS ? "SIGBUS" : sg == SIGFPE ? "SIGFPE" : "signal:" + std::to_string(sg);
+            } else if (!normal) how = "exit:" + std::to_string(WEXITSTATUS(st));
+            else how = "garbled-output";
+            outbuf += crashEvent(cases[k], how, pid);
         }
-        writeAll(1, good);
-        const size_t k = start + accepted;
-        if (k >= cases.size()) break;                  // every case has its event
-        std::string how;
-        if (WIFSIGNALED(st)) {
-            const int sg = WTERMSIG(st);
-            how = sg == SIGSEGV ? "SIGSEGV" : sg == SIGABRT ? "SIGABRT" : sg == SIGALRM ? "TIMEOUT" : sg == SIGBUS ? "SIGBUS" : sg == SIGFPE ? "SIGFPE" : "signal:" + std::to_string(sg);
-        } else how = "exit:" + std::to_string(WEXITSTATUS(st));
-        writeAll(1, crashEvent(cases[k], how, pid));
-        start = k + 1;
+        if (outbuf.size() > (1u << 20)) { writeAll(1, outbuf); outbuf.clear(); }
     }
+    writeAll(1, outbuf);
     XPathEvaluator::terminate();
     return rc;
 }
